@@ -281,6 +281,16 @@ class Builder:
                 return u
         n = d(st.integers(1, 2))
         regions = [self.region(scale) for _ in range(n)]
+        shared = getattr(self, 'container_leaves', None)
+        self.container_leaves = None
+        if shared and d(st.integers(0, 2)) == 0:
+            k = d(st.integers(0, n - 1))
+            leaf = d(st.sampled_from(shared))
+            if d(st.integers(0, 3)) == 0:
+                leaf = gen.push_not(leaf, True)      # the other side
+            regions[k] = md.AND(regions[k], leaf) if regions[k][0] != '&' \
+                else list(regions[k]) + [leaf]
+            self.labels.add('filler-shares-container-surface')
         cids = [self.new_cid() for _ in range(n + 1)]
         for i in range(n + 1):
             terms = []
@@ -320,7 +330,11 @@ class Builder:
                 sub = d(st.sampled_from(reuse))
                 self.labels.add('universe-reused')
             else:
+                # the cells of the filling universe may be bounded by a
+                # surface that also bounds the container (same number)
+                self.container_leaves = _signed_leaves(expr)
                 sub = self.universe(depth - 1, scale * 0.8)
+                self.container_leaves = None
             fill = {'u': sub, 'tr': self.transform_ref(scale)}
             if d(st.integers(0, 3)) == 0:
                 trcl = self.transform_ref(scale, allow_none=False)
@@ -585,6 +599,19 @@ def _shrink_body(kind, p, scale):
     if k == 'arb':
         return [v * f if i < 24 else v for i, v in enumerate(q)]
     return [v * f for v in q]
+
+
+def _signed_leaves(expr):
+    if expr is None:
+        return []
+    if expr[0] in ('s', 'f'):
+        return [expr]
+    if expr[0] == '#':
+        return []
+    out = []
+    for sub in expr[1:]:
+        out.extend(_signed_leaves(sub))
+    return out
 
 
 def universe_depth(deck):
